@@ -509,7 +509,7 @@ func (c *converter) Input(prompt string, valueUsed bool) (string, error) {
 	if len(prompt) > 0 {
 		prompt = fmt.Sprintf(" -p \"%s\"", prompt)
 	}
-	c.addLine(fmt.Sprintf("read -r%s %s", prompt, helper)) // -r: backslashes in the input are data.
+	c.addLine(fmt.Sprintf("read -r%s %s", prompt, c.varName(helper, false))) // -r: backslashes in the input are data.
 	return c.VarEvaluation(helper, valueUsed, false)
 }
 
